@@ -34,10 +34,11 @@ def fchan_term(c) -> str:
     )
     return (
         "{| fc_global := %s; fc_dmm := %s; fc_basis := %s; fc_nonempty := %s; fc_dur := %s;"
-        " fc_slots := %s; fc_w := %s; fc_last := %s |}"
+        " fc_slots := %s; fc_w := %s; fc_eom := %s; fc_last := %s |}"
         % (
             coq_bool(c["glob"]), coq_bool(c["dmm"]), nat(c["basis"]), coq_bool(c["nonempty"]),
             Z(c["dur"]), slots, coq_list(coq_float(x) for x in c["w"]),
+            coq_list(pair("None" if tf is None else "(Some %s)" % Z(tf), coq_float(d)) for tf, d in c.get("eom", [])),
             pair(coq_float(c["last"][0]), coq_float(c["last"][1])),
         )
     )
@@ -83,7 +84,7 @@ class C05(PropCheck):
         "exp(-i phi), C6/R^6, cos(theta) and the spline evaluation of QobjEvo at a knot are numpy/QuTiP results; "
         "the float model recomputes them and entries are compared with tolerance 1e-9*(1+max|H|)",
         "the sequence builder is taken as given: the oracle reads the programmed pulses from the schedule",
-        "noiseless emulator (all_local=False path of to_nested_dict); EOM mode and output modulation are not generated",
+        "noiseless emulator (all_local=False path of to_nested_dict); output modulation and EOM mode on Local channels are not generated (EOM on the Global Rydberg channel is)",
     ]
     trusted_base_extra = [
         "harness/c05_impl.py oracle: numpy kron reading of the documented formula",
